@@ -1589,7 +1589,12 @@ int asn1_time_from_str(int utc_time, time_t *timestamp, const char *str)
 
 	day--;
 
-	while (year-- > 1970) {
+	while (year-- > 1970)
+	VERIF_LOOP_ASSIGNS(year, day)
+	VERIF_LOOP_INVARIANT(1970 <= year && year <= VERIF_LOOP_ENTRY(year) && VERIF_LOOP_ENTRY(year) <= 9999)
+	VERIF_LOOP_INVARIANT(day == VERIF_LOOP_ENTRY(day) + (VERIF_DAYS_BEFORE_YEAR(VERIF_LOOP_ENTRY(year)) - VERIF_DAYS_BEFORE_YEAR(year)))
+	VERIF_LOOP_DECREASES(year)
+	{
 		day += days_per_year[is_leap_year(year)];
 	}
 	while (month-- > 1) {
@@ -1619,7 +1624,12 @@ int asn1_time_to_str(int utc_time, time_t timestamp, char *str)
 
 	// In UTCTime, year in [1951, 2050], YY <= 50, year = 20YY; YY > 50, year = 19YY
 	// For Validity, year SHOULD <= 2049 (NOT 2050)
-	for (year = 1970; year <= max_year[utc_time]; year++) {
+	for (year = 1970; year <= max_year[utc_time]; year++)
+	VERIF_LOOP_ASSIGNS(year, day)
+	VERIF_LOOP_INVARIANT(1970 <= year && year <= max_year[utc_time] + 1 && day >= 0)
+	VERIF_LOOP_INVARIANT(day == VERIF_LOOP_ENTRY(day) - VERIF_DAYS_BEFORE_YEAR(year))
+	VERIF_LOOP_DECREASES(10000 - year)
+	{
 		if (day < days_per_year[is_leap_year(year)]) {
 			break;
 		}
